@@ -202,11 +202,17 @@ func c16record(c *Ctx, cg []sam.CigarOp, pos int, flags sam.Flags) {
 }
 
 func c16(c *Ctx) {
-	c.Rule = "BAI BinFor vs SAM reg2bin: all begin/end tile pairs tb<=te over (quick) the 512 coarsest 1 MiB-aligned tiles plus every pair within 64 tiles of a level boundary, (thorough) all 2^15 x 2^15 tile pairs, each with in-tile offsets (beg,end-1) in {0,1,T-1}^2. OverlappingBinsFor vs reg2bins as sets: every (tb, span<=8) for all tb, and all pairs over ~320 boundary tiles. CSI reg2bin/reg2bins vs the CSI spec on geometries (14,5),(14,6),(12,4),(1,2),(0,1),(3,3),(2,2),(14,7),(20,5) (the last two reach 2^35) at all level-boundary positions +-1; overlap consistency bin(A) in bins(B) checked directly over ALL overlapping interval pairs of every CSI geometry with minShift+3*depth<=8 and over a boundary interval alphabet for BAI. Records: all CIGARs of <=3 (thorough 4) ops over the 10 op types x lengths {1,2,2^28-1} x pos {0,5,2^29-1-len,-1} x flags {0,Unmapped,Unmapped|MateUnmapped}: End, Len, Lengths, IsValid(l-1,l,l+1), Bin vs SAM v1 semantics. Non-trivial: intervals spanning more than one leaf tile / CIGARs with >=2 ops."
+	c.Rule = "BAI BinFor vs SAM reg2bin: all begin/end tile pairs tb<=te over (quick) the 512 coarsest 1 MiB-aligned tiles plus every pair within 64 tiles of a level boundary, (thorough) all 2^15 x 2^15 tile pairs, each with in-tile offsets (beg,end-1) in {0,1,T-1}^2. OverlappingBinsFor vs reg2bins as sets: every (tb, span<=8) for all tb, and all pairs over ~320 boundary tiles. CSI reg2bin/reg2bins vs the CSI spec on geometries (14,5),(14,6),(12,4),(1,2),(0,1),(3,3),(2,2),(14,7),(20,5) (the last two reach 2^35) at all level-boundary positions +-1; overlap consistency bin(A) in bins(B) checked directly over ALL overlapping interval pairs of every CSI geometry with minShift+3*depth<=8 and over a boundary interval alphabet for BAI. Records: all CIGARs of <=3 (thorough 4) ops over the 10 op types x lengths {1,2,2^28-1} x pos {0,5,2^29-1-len,-1} x flags {0,Unmapped,Unmapped|MateUnmapped}: End, Len, Lengths, IsValid(l-1,l,l+1), Bin vs SAM v1 semantics. Assigned bins: every single record and sorted pair (same reference, and on references 0/1) over the C04 interval alphabet added through bam.Index.Add / csi.Index.Add (geometries (14,5),(12,4),(1,2),(3,3),(14,6)), the index written and parsed independently: the bins present per reference must be exactly the specification's reg2bin of the records added. Non-trivial: intervals spanning more than one leaf tile / CIGARs with >=2 ops."
 	if c.Replay != nil {
 		var cas c16case
 		if err := json.Unmarshal(c.Replay, &cas); err != nil {
 			c.Infra = err.Error()
+			return
+		}
+		if cas.Kind == "bai" || cas.Kind == "csi" {
+			var ic c04case
+			json.Unmarshal(c.Replay, &ic)
+			c16assignedOne(c, ic)
 			return
 		}
 		switch cas.Kind {
@@ -544,6 +550,9 @@ func c16(c *Ctx) {
 	c.AddExtra("records", rn)
 	evals += rn
 	nontriv += rnt
+	an := c16assigned(c)
+	evals += an
+	nontriv += an
 	c.Eval(evals)
 	c.NontrivialN(nontriv)
 	c.Sample(c16case{Kind: "bai-bin", Beg: 1<<26 - 1, End: 1<<26 + 1})
